@@ -12,12 +12,23 @@ package gasestimator
 // succ(call, opts, g): "executing the call with gas limit g succeeds" (abstract).
 //@ opaque pure func succ(call *core.Message, opts *Options, g int) bool
 
-// execute runs the call once at a given gas limit on a copy of the state.
-// (the last clause below is the "gas-monotone program" hypothesis of the property: a run that
+// run executes the call once, at call.GasLimit, on a copy of the state.
+// (the third clause is the "gas-monotone program" hypothesis of the property: a run that
 // consumed UsedGas cannot succeed with a smaller limit)
+//@ func run(ctx context.Context, call *core.Message, opts *Options) (result *core.ExecutionResult, err error)
+//@   serves C37
+//@   trusted runs the full EVM on a copied state (defer, goroutine for the timeout): outside the verified subset. Assumed: deterministic in the gas limit, the result reports failure exactly when the execution does not succeed, intrinsic-gas and limit-too-high errors mean no success at that limit, and a successful run reports gas figures within its limit
+//@   ensures err == nil ==> result != nil && (result.Err == nil) == succ(call, opts, call.GasLimit)
+//@   ensures err != nil && (iserr(err, core.ErrIntrinsicGas) || iserr(err, core.ErrGasLimitTooHigh)) ==> !succ(call, opts, call.GasLimit)
+//@   ensures err == nil && result.Err == nil ==> !succ(call, opts, result.UsedGas - 1)
+//@   ensures err == nil && result.Err == nil ==> 1 <= result.UsedGas && result.UsedGas <= call.GasLimit && result.UsedGas <= result.MaxUsedGas && result.MaxUsedGas <= call.GasLimit
+
+// execute: every verdict comes from an actual run at exactly the probed limit, and the
+// message's own gas limit is restored afterwards.
 //@ func execute(ctx context.Context, call *core.Message, opts *Options, gasLimit uint64) (failed bool, result *core.ExecutionResult, err error)
 //@   serves C37
-//@   trusted runs the full EVM on a copied state (defer, goroutine for the timeout): outside the verified subset. Assumed: deterministic in the gas limit, reports failure exactly when the execution does not succeed, and a successful run reports gas figures within its limit
+//@   modifies call.GasLimit
+//@   ensures call.GasLimit == old(call.GasLimit)
 //@   ensures err == nil ==> failed == !succ(call, opts, gasLimit)
 //@   ensures err == nil && failed && result != nil ==> result.Err != nil
 //@   ensures err == nil && !failed ==> !succ(call, opts, result.UsedGas - 1)
@@ -33,6 +44,8 @@ package gasestimator
 // C37: the estimate lets the call succeed and respects every cap.
 //@ func Estimate(ctx context.Context, call *core.Message, opts *Options, gasCap uint64) (est uint64, revert []byte, err error)
 //@   serves C37
+//@   modifies call.GasLimit
+//@   ensures call.GasLimit == old(call.GasLimit)
 //@   ensures err == nil ==> succ(call, opts, est)
 //@   ensures err == nil && gasCap != 0 ==> est <= gasCap
 //@   ensures err == nil ==> est <= ite(call.GasLimit >= 21000, call.GasLimit, opts.Header.GasLimit)
@@ -41,6 +54,7 @@ package gasestimator
 //@   ensures err != nil ==> est == 0
 //@   ensures err == nil && opts.ErrorRatio == 0 && opts.Header.GasLimit <= 72057594037927936 && call.GasLimit <= 72057594037927936 ==> est == 21000 || !succ(call, opts, est - 1)
 //@   loop 1 "lo+1 < hi"
+//@     invariant call.GasLimit == old(call.GasLimit)
 //@     invariant opts.Header.GasLimit <= 72057594037927936 && call.GasLimit <= 72057594037927936 ==> lo < hi
 //@     invariant opts.ErrorRatio == 0 ==> !succ(call, opts, lo)
 //@     invariant len(call.BlobHashes) == 0 ==> fundsOK(call, opts, hi)
